@@ -21,6 +21,7 @@ Rt(a) == <<NRoot>> \o a
 ExprPaths ==
   { Rt(<<NAnyArr>>), Rt(<<NKey(KA)>>), Rt(<<NAnyKey>>), Rt(<<NAny(0, -1)>>), Rt(<<NAny(1, 2), NKey(KA)>>),
     Rt(<<NIdx(<<Sub1(Lit(0)), Sub1(<<NLast>>)>>)>>), Rt(<<NIdx(<<Sub2(Rt(<<NKey(KB)>>), <<NLast>>)>>)>>),
+    Rt(<<NAny(2, 2), NKey(KA)>>), Rt(<<NAny(2, -1), NKey(KA)>>), Rt(<<NAny(1, 1), NAnyArr, NKey(KA)>>),
     Rt(<<NAnyArr, NFilter(NBin("gt", At(<<>>), Lit(0)))>>),
     Rt(<<NAnyArr, NFilter(NUn("exists", At(<<NKey(KA)>>)))>>),
     Rt(<<NAnyArr, NFilter(NUn("isunknown", <<NBin("eq", At(<<NKey(KA)>>), Lit(1))>>))>>),
@@ -47,7 +48,10 @@ DocSeq == SetToSeq(
   TreesUpTo({VFlt(1), VStr(KX)}, <<KA, KB>>, MaxNodes)
   \cup { VArr(<<VFlt(1), VFlt(2), VFlt(3)>>), VObj(<<[k |-> KA, v |-> VFlt(1)], [k |-> KB, v |-> VFlt(2)]>>),
          VArr(<<VObj(<<[k |-> KA, v |-> VFlt(1)]>>), VObj(<<[k |-> KA, v |-> VStr(KX)]>>), VFlt(2)>>),
-         VObj(<<[k |-> KA, v |-> VArr(<<VFlt(1), VFlt(2)>>)], [k |-> KB, v |-> VFlt(0)]>>) })
+         VObj(<<[k |-> KA, v |-> VArr(<<VFlt(1), VFlt(2)>>)], [k |-> KB, v |-> VFlt(0)]>>),
+         VArr(<<VArr(<<VObj(<<[k |-> KA, v |-> VFlt(1)]>>)>>), VFlt(7)>>),
+         VArr(<<VArr(<<VObj(<<[k |-> KA, v |-> VFlt(1)]>>), VObj(<<[k |-> KA, v |-> VFlt(2)]>>)>>), VStr(KX)>>),
+         VArr(<<VArr(<<VArr(<<VObj(<<[k |-> KA, v |-> VFlt(1)]>>)>>)>>), VArr(<<>>)>>) })
 VarRow == [vars |-> <<[k |-> KX, v |-> VArr(<<VFlt(1), VFlt(2)>>)]>>]
 
 ASSUME ndJsonSerialize("paths.ndjson", PathRows)
